@@ -291,6 +291,38 @@ def run(ctx):
             t = one_load(api, "open-%s|%s|%d" % (of, flag0, len(traces)), b"", flag0, "path", open_fails=of)
             traces.append(t)
             ctx.count_case(("open-fails", of, flag0, k), nontrivial=True)
+    # nested loads started through the PUBLIC load_chunk() entry points (an embedded project handed to a MetaModule, an effect
+    # handed to a Sampler) - outside any read_sunvox_file call: the setting is as before when load_chunk returns or raises
+    import rv.errors
+    from rv.modules import Chunk as _Chunk
+    good_proj = api.Project()
+    good_proj.new_module(api.m.Amplifier)
+    good_synth = api.Synth(api.m.Filter()).read()
+    blobs = [("project", good_proj.read()), ("project-truncated", good_proj.read()[:60]), ("unknown-type", b"SVOX\0\0\0\0SFFF\4\0\0\0\1\0\0\0STYP\3\0\0\0Zz\0"),
+             ("synth", good_synth), ("synth-truncated", good_synth[:50]), ("empty", b""), ("junk", b"not a chunk stream at all")]
+    for cname, chnm, cls_ in (("MetaModule", 0, api.m.MetaModule), ("Sampler", 0x10A, api.m.Sampler)):
+        for bname, blob in blobs:
+            for flag0 in (True, False):
+                log = []
+                rv.errors.RAISE_CONTROLLER_VALUE_ERRORS = flag0
+                saved = []          # (the load the chunk starts is the outermost one here: judged as a plain load)
+                try:
+                    log.append({"op": "enter", "kind": "stream"})
+                    ch = _Chunk()
+                    ch.chnm, ch.chdt, ch.chff, ch.chfr = chnm, blob, 0, 0
+                    try:
+                        cls_().load_chunk(ch)
+                        end = {"op": "return", "exc": ""}
+                    except BaseException as e:
+                        end = {"op": "raise", "exc": type(e).__name__}
+                    end["flag"] = bool(rv.errors.RAISE_CONTROLLER_VALUE_ERRORS)
+                    end["closed"] = True
+                    log.append(end)
+                finally:
+                    remove_nested_observers(saved)
+                    rv.errors.RAISE_CONTROLLER_VALUE_ERRORS = True
+                traces.append({"id": "load_chunk|%s|%s|%s|%d" % (cname, bname, flag0, len(traces)), "flag0": flag0, "events": log})
+                ctx.count_case(("load_chunk", cname, bname, flag0), nontrivial=True)
     sanity = []          # judged after the traces: a library that fails every load is reported as such, not as a machinery failure
     if not any(t["events"][0]["kind"] == "path" and any(e["op"] == "io" for e in t["events"]) for t in traces):
         sanity.append("no path-opened load reached the wrapped Path.open (the library opens files differently now?)")
